@@ -793,6 +793,16 @@ fn gc_measure(code: &str) -> Value {
 
 /// `env`: evaluate in the environment of `c18_kinds` (ext vars, natives, library path = `env`)
 fn gc_measure_in(code: &str, env: Option<std::path::PathBuf>) -> Value {
+	gc_measure_opt(code, env, true)
+}
+
+/// `prewarm`: materialise the evaluator's per-thread empty-object singleton (`{}` — it stays tracked
+/// for the life of the thread by design, see the finding c18_empty_object_singleton_stays_tracked)
+/// before the first count, so that `retained_after_first` is the ABSOLUTE statement of the property:
+/// after the first evaluation, the drop of result and state and a collection, nothing the program
+/// created is tracked (a differential baseline would absorb a one-off retention such as a thread-local
+/// state object created on the way)
+fn gc_measure_opt(code: &str, env: Option<std::path::PathBuf>, prewarm: bool) -> Value {
 	let code = code.to_owned();
 	std::thread::Builder::new()
 		.stack_size(256 << 20)
@@ -801,6 +811,10 @@ fn gc_measure_in(code: &str, env: Option<std::path::PathBuf>) -> Value {
 				Some(lib) => c18_kinds::gc_once_env(code, lib),
 				None => gc_once(code),
 			};
+			if prewarm {
+				let _ = gc_once("{}");
+				jrsonnet_gcmodule::collect_thread_cycles();
+			}
 			let fresh_tracked = jrsonnet_gcmodule::count_thread_tracked();
 			let (c1, _) = gc_once(&code);
 			jrsonnet_gcmodule::collect_thread_cycles();
@@ -817,6 +831,7 @@ fn gc_measure_in(code: &str, env: Option<std::path::PathBuf>) -> Value {
 			let _ = guarded(exit_thread);
 			json!({
 				"tracked_leaked": tracked - base_tracked,
+				"retained_after_first": base_tracked - fresh_tracked as i64,
 				"pool_leaked": pool - base_pool,
 				"panic": c1 == "panic" || c2 == "panic",
 				"_class": c2,
@@ -830,7 +845,7 @@ fn gc_measure_in(code: &str, env: Option<std::path::PathBuf>) -> Value {
 		})
 		.expect("spawn")
 		.join()
-		.unwrap_or_else(|_| json!({"tracked_leaked": -1, "pool_leaked": -1, "panic": true, "_class": "thread-panic"}))
+		.unwrap_or_else(|_| json!({"tracked_leaked": -1, "retained_after_first": -1, "pool_leaked": -1, "panic": true, "_class": "thread-panic"}))
 }
 
 fn instantiate(t: &str, rng: &mut Rng) -> String {
@@ -844,7 +859,7 @@ fn gc_measure_child(op: &Value, out: &std::path::Path) -> Value {
 	let dir = out.join("child");
 	let _ = std::fs::create_dir_all(&dir);
 	let rp = dir.join("replay.json");
-	let died = |why: String| json!({"tracked_leaked": -1, "pool_leaked": -1, "panic": true, "_class": why});
+	let died = |why: String| json!({"tracked_leaked": -1, "retained_after_first": -1, "pool_leaked": -1, "panic": true, "_class": why});
 	if std::fs::write(&rp, json!({ "op": op }).to_string()).is_err() {
 		return died("child-io".into());
 	}
@@ -945,6 +960,11 @@ fn run_gc(opts: &Opts) {
 		}
 		w.finish(json!({"engine":"c18gc","rule":"replay"}), &opts.out);
 		return;
+	}
+	// the empty-object singleton itself, measured WITHOUT pre-warming (known finding)
+	for code in ["{}", "{ a: {} }.a", "({} + { x: 1 }) + { x: 1 }"] {
+		let m = gc_measure_opt(code, None, false);
+		w.case(json!({"op":"gc.observe","prog":code,"tag":"empty-object-singleton","absolute":true,"size":code.len()}), m);
 	}
 	let mut rng = Rng::new(opts.seed ^ 0xC18);
 	// every template with two parameter choices
